@@ -72,4 +72,65 @@ theorem intervalRemove_spec (a b p n : Nat) (hab : a ≤ b) (hp : 1 ≤ p) (x : 
         · have : ¬ (x + n < p) := by omega
           simp [this]
 
+/-! ## moving / copying a rectangle (written from the property text)
+
+  "Moving a range leaves the source rectangle empty and the destination rectangle holding exactly
+  the source cells (value, style and formula text as they were) at their translated positions,
+  while copying keeps the source and places every non-blank source cell at its translated
+  position."  A position is *blank* when the grid holds nothing there (`none`). -/
+
+/-- the rectangle rows `rs..re` × columns `cs..ce` (inclusive) -/
+structure Rect where
+  rs : Nat
+  re : Nat
+  cs : Nat
+  ce : Nat
+  deriving Repr, DecidableEq
+
+/-- `(r, c)` lies in the rectangle (integers, so that pre-images under a negative offset can be asked) -/
+def Rect.has (ρ : Rect) (r c : Int) : Prop :=
+  (ρ.rs : Int) ≤ r ∧ r ≤ (ρ.re : Int) ∧ (ρ.cs : Int) ≤ c ∧ c ≤ (ρ.ce : Int)
+
+instance (ρ : Rect) (r c : Int) : Decidable (ρ.has r c) := by unfold Rect.has; exact inferInstance
+
+/-- `(r, c)` lies in the destination rectangle `ρ + (dr, dc)`: its pre-image lies in `ρ` -/
+def Rect.hasImage (ρ : Rect) (dr dc : Int) (r c : Nat) : Prop := ρ.has ((r : Int) - dr) ((c : Int) - dc)
+
+instance (ρ : Rect) (dr dc : Int) (r c : Nat) : Decidable (ρ.hasImage dr dc r c) := by
+  unfold Rect.hasImage; exact inferInstance
+
+/-- the grid limits of the file format -/
+def maxRow : Nat := 1048576
+def maxCol : Nat := 16384
+
+/-- in-range arguments of a move / copy: a non-empty rectangle inside the grid whose image under
+    the offset `(dr, dc)` is inside the grid as well -/
+def InRange (ρ : Rect) (dr dc : Int) : Prop :=
+  1 ≤ ρ.rs ∧ ρ.rs ≤ ρ.re ∧ ρ.re ≤ maxRow ∧ 1 ≤ ρ.cs ∧ ρ.cs ≤ ρ.ce ∧ ρ.ce ≤ maxCol ∧
+  1 ≤ (ρ.rs : Int) + dr ∧ (ρ.re : Int) + dr ≤ (maxRow : Int) ∧
+  1 ≤ (ρ.cs : Int) + dc ∧ (ρ.ce : Int) + dc ≤ (maxCol : Int)
+
+instance (ρ : Rect) (dr dc : Int) : Decidable (InRange ρ dr dc) := by unfold InRange; exact inferInstance
+
+/-- Move: every position of the destination rectangle takes what the source held at the pre-image
+    (a blank source position makes the destination position blank); a position of the source
+    rectangle outside the destination becomes blank; everything else is unchanged.
+    Source and destination may overlap. -/
+def moveRect {α} (g : Grid α) (ρ : Rect) (dr dc : Int) : Grid α :=
+  fun r c =>
+    if ρ.hasImage dr dc r c then g ((r : Int) - dr).toNat ((c : Int) - dc).toNat
+    else if ρ.has r c then none
+    else g r c
+
+/-- Copy: every non-blank source cell overwrites its image; under a blank source position the
+    destination keeps what it had; everything outside the destination (the source included) is
+    unchanged.  The source content is read before anything is written (overlap included). -/
+def copyRect {α} (g : Grid α) (ρ : Rect) (dr dc : Int) : Grid α :=
+  fun r c =>
+    if ρ.hasImage dr dc r c then
+      match g ((r : Int) - dr).toNat ((c : Int) - dc).toNat with
+      | some x => some x
+      | none => g r c
+    else g r c
+
 end Umya.Spec.Grid
